@@ -31,6 +31,39 @@ def special_specs(ctx, n):
     return out
 
 
+def numpy_constraint_specs(ctx):
+    """model-based optimizers (they filter a whole candidate pool) under constraints written as numpy reductions over the parameters
+    (np.sum([...]) <= c, np.linalg.norm([...]) >= r, np.any(...)), with the objective's optimum inside the infeasible region"""
+    import inspect, itertools
+    rng = ctx.sub_rng("c02-numpy-constraint")
+    out = []
+    names = [n for n in gen.ALL if "warm_start_smbo" in inspect.signature(gen.opt_class(n).__init__).parameters or n in gen.SLOW]
+    for rd in range(1 if ctx.quick else 4):
+        for name in names:
+            sz = rng.choice([6, 7, 8])
+            space = {"x0": np.arange(sz), "x1": np.arange(sz)}
+            kind = rng.choice(["sum", "norm", "any"])
+            if kind == "sum":
+                bound, peak = sz - 2, (sz - 1, sz - 1)
+            elif kind == "norm":
+                bound, peak = float(sz) / 2.0, (0, 0)
+            else:
+                bound, peak = 1, (0, 0)
+            allp = list(itertools.product(range(sz), range(sz)))
+            cons = instr.NumpyStyleConstraint(space, kind, bound)
+            feas = {p for p in allp if tuple(float(space[n][i]) for n, i in zip(space, p)) in cons.feasible_values}
+            if len(feas) * 4 < len(allp) or len(feas) == len(allp):
+                continue
+            table = {p: (-float((p[0] - peak[0]) ** 2 + (p[1] - peak[1]) ** 2), None) for p in allp}
+            ni = rng.choice([3, 4])
+            spec = dict(name=name, space=space, table=table, calls=[dict(n_iter=ni + 10, memory=False, verbosity=False)], seed=rng.randrange(10 ** 6),
+                        init={"random": ni}, cfg=({"tree_para": {"n_estimators": 5}} if name == "ForestOptimizer" else {}),
+                        meta=[("int", "asc", sz), ("int", "asc", sz)], steps_api=True, feasible=feas, np_constraint=(kind, bound),
+                        constraint_desc=("numpy-" + kind, bound))
+            out.append(spec)
+    return out
+
+
 def offgrid_warm_specs(ctx, n):
     """a constraint that is a predicate on the parameter VALUES (a half-space a.x > b, also defined between grid points) and
     warm-start dictionaries whose values lie between two grid points next to the border: feasible as given, but the nearest
@@ -147,11 +180,13 @@ def run(ctx):
                         "random masks, constraints coupling several parameters with long iteration phases; feasible fraction >= 25%), best_para too; all 22 optimizers, both grid directions, "
                         "DownhillSimplex with fewer inits than dims+1, populations larger than the number of inits, repeated "
                         "calls; value-predicate constraints with warm starts between two grid points next to the border; per optimizer two longer "
-                        "runs with extreme hyper-parameters; distinct by (optimizer, seed, constraint)")
+                        "runs with extreme hyper-parameters; model-based optimizers under constraints written as numpy reductions (np.sum / np.linalg.norm / np.any over the "
+                        "parameters) with the optimum in the infeasible region; distinct by (optimizer, seed, constraint)")
     n_fast, n_slow = (72, 8) if ctx.quick else (540, 60)
     specs = sweep.sweep_specs(ctx, "c02", n_fast, n_slow, constraint=1.0) + special_specs(ctx, 24 if ctx.quick else 160) \
         + coupled_specs(ctx, 33 if ctx.quick else 220) + offgrid_warm_specs(ctx, 36 if ctx.quick else 200) \
-        + [sp_ for sp_ in sweep.extreme_specs(ctx, "c02", constraint=1.0, rounds=(1 if ctx.quick else 4)) if sp_.get("feasible") is not None]
+        + [sp_ for sp_ in sweep.extreme_specs(ctx, "c02", constraint=1.0, rounds=(1 if ctx.quick else 4)) if sp_.get("feasible") is not None] \
+        + numpy_constraint_specs(ctx)
     for spec in specs:
         if spec.get("feasible") is None:
             continue
